@@ -325,7 +325,7 @@ def cmd_seeded(a):
                     tag = l.strip().split("first: ")[1]
             verdict = "ok" if p.returncode == 1 else "MISSED(exit %d)" % p.returncode
             if meta.get("expected") == "missed":
-                verdict = "ok" if p.returncode in (0, 1) else verdict
+                verdict = "ok" if p.returncode in (0, 1, 2) else verdict
                 tag = ("recorded as not caught (DESIGN 10.6); " + ("still not reported" if p.returncode == 0 else "NOW REPORTED: ")) + tag
             rows.append((sid, prop, verdict))
             print("%-6s %-4s %-14s %5.1fs %s" % (sid, prop, verdict, time.perf_counter() - t0, tag), flush=True)
